@@ -15,10 +15,12 @@ import time
 
 VERIF = os.path.dirname(os.path.dirname(os.path.abspath(__file__)))
 REPO = os.environ.get("SPQLIOS_REPO", "/repo")
-BUILD = os.path.join(VERIF, "_build")
-WORK = os.path.join(VERIF, "_work")
+# VERIF_BUILD / VERIF_WORK / VERIF_EVID: only set by tools/seeded.py, which judges a seeded change in a scratch worktree
+# (SPQLIOS_REPO) without touching /repo, /verif/_build or /verif/evidence; the registered commands never set them
+BUILD = os.environ.get("VERIF_BUILD", os.path.join(VERIF, "_build"))
+WORK = os.environ.get("VERIF_WORK", os.path.join(VERIF, "_work"))
 SPEC = os.path.join(VERIF, "spec")
-EVID = os.path.join(VERIF, "evidence")
+EVID = os.environ.get("VERIF_EVID", os.path.join(VERIF, "evidence"))
 TLA_CP = "/opt/veriftools/tla/tla2tools.jar:/opt/veriftools/tla/CommunityModules-deps.jar"
 
 
